@@ -297,11 +297,16 @@ class ThreeQubitDiagonalGate(raw_types.Gate):
         """
 
         a, b, c = qubits
+        angles = list(self._diag_angles_radians)
         if hasattr(b, 'is_adjacent'):
+            # Unlike CCZ this gate is not symmetric in its qubits: relabelling the qubits
+            # permutes the diagonal accordingly.
             if not b.is_adjacent(a):
                 b, c = c, b
+                angles = [angles[4 * i + 2 * k + j] for i in (0, 1) for j in (0, 1) for k in (0, 1)]
             elif not b.is_adjacent(c):
                 a, b = b, a
+                angles = [angles[4 * j + 2 * i + k] for i in (0, 1) for j in (0, 1) for k in (0, 1)]
         sweep_abc = [common_gates.CNOT(a, b), common_gates.CNOT(b, c)]
         phase_matrix_inverse = 0.25 * np.array(
             [
@@ -315,11 +320,11 @@ class ThreeQubitDiagonalGate(raw_types.Gate):
             ]
         )
         shifted_angles_tail = [
-            angle - self._diag_angles_radians[0] for angle in self._diag_angles_radians[1:]
+            angle - angles[0] for angle in angles[1:]
         ]
         phase_solutions = phase_matrix_inverse.dot(shifted_angles_tail)
         p_gates = [pauli_gates.Z ** (solution / np.pi) for solution in phase_solutions]
-        global_phase = 1j ** (2 * self._diag_angles_radians[0] / np.pi)
+        global_phase = 1j ** (2 * angles[0] / np.pi)
         global_phase_operation = (
             [global_phase_op.global_phase_operation(global_phase)]
             if protocols.is_parameterized(global_phase) or abs(global_phase - 1.0) > 0
